@@ -70,4 +70,13 @@ CLAIMS = {
          "Disconnected event carrying the SM state, all complete stanzas routed, receive loop and keepalive ended (hooks), no library goroutine "
          "left (stack dump), no panic (worker survives).",
     note="Trusted: TLC, the scripted server's element splitter, the verif hooks used only to detect quiescence. The happy-path negotiation (PLAIN without TLS, bind, <enabled resume=true>) is a precondition. Exhaustive only within the bounds in the evidence; beyond them seeded variants (chunked writes, big stanzas, RST, burst histories). WebSocket transport not yet driven by this check.", technique=TECH),
+ "C08": dict(
+    text="SendPath.tla models each send as serialise(+queue push) then ONE atomic transport write, for N concurrent senders with a write "
+         "fault at the k-th write; TLC checks wire-is-a-shuffle-of-whole-stanzas / failed-write-reported / pushed-once for all schedules and shows "
+         "that a split-write variant violates the invariant (non-vacuity). Every schedule of 2 senders x 2 sends is replayed on a real Client "
+         "through the gate between serialisation and write (Send, SendRaw, SendIQ mixed; SM on/off; stream logger on/off; total and partial write "
+         "faults), plus ungated stress runs with up to 8 senders; the server matches every received top-level element byte-for-byte and TLC judges the trace.",
+    note="Trusted: TLC, the server-side element splitter and byte comparison, atomicity of one Write call on net.Conn. Client over TCP only so far "
+         "(WebSocket and component send paths are not yet driven). Log-file layout is not asserted.",
+    technique=TECH),
 }
